@@ -400,6 +400,9 @@ func TestRandom(t *testing.T) {
 
 func smallPool(maxSegs int) []string {
 	toks := []string{"a", "ab", "{p%d}", "*{c%d}", "a{p%d}"}
+	if env := os.Getenv("C08_EXH_TOKENS"); env != "" {
+		toks = strings.Split(env, ",")
+	}
 	var out []string
 	var rec func(prefix string, depth int, prevCatch bool)
 	rec = func(prefix string, depth int, prevCatch bool) {
@@ -432,7 +435,7 @@ func allPaths(maxLen int) []string {
 		if len(p) == maxLen {
 			return
 		}
-		for _, c := range []string{"/", "a", "b"} {
+		for _, c := range pathAlphabet() {
 			if c == "/" && strings.HasSuffix(p, "/") {
 				continue
 			}
@@ -443,6 +446,20 @@ func allPaths(maxLen int) []string {
 	return out
 }
 
+func cmpOr(a, b string) string {
+	if a != "" {
+		return a
+	}
+	return b
+}
+
+func pathAlphabet() []string {
+	if env := os.Getenv("C08_EXH_PATHALPHA"); env != "" {
+		return strings.Split(env, ",")
+	}
+	return []string{"/", "a", "b"}
+}
+
 func TestExhaustive(t *testing.T) {
 	segs := stats.EnvInt("C08_EXH_SEGS", 2)
 	size := stats.EnvInt("C08_EXH_SUBSET", 2)
@@ -450,7 +467,7 @@ func TestExhaustive(t *testing.T) {
 	shard, shards := stats.EnvInt("VERIF_SHARD", 0), stats.EnvInt("VERIF_SHARDS", 1)
 	pool := smallPool(segs)
 	paths := allPaths(plen)
-	stats.Note("exhaustive", fmt.Sprintf("all subsets of size <= %d of the %d patterns over tokens {a ab {p} *{c} a{p}} with <= %d segments, x all %d paths over {/ a b} up to length %d, global mode cycling over none/ignore/redirect", size, len(pool), segs, len(paths), plen))
+	stats.Note("exhaustive"+os.Getenv("C08_EXH_NAME"), fmt.Sprintf("all subsets of size <= %d of the %d patterns over tokens %v with <= %d segments, x all %d paths over %v up to length %d, global mode cycling over none/ignore/redirect", size, len(pool), strings.Split(cmpOr(os.Getenv("C08_EXH_TOKENS"), "a,ab,{p},*{c},a{p}"), ","), segs, len(paths), pathAlphabet(), plen))
 	reqs := make([]Req, len(paths))
 	for i, p := range paths {
 		reqs[i] = Req{Method: "GET", Target: p}
